@@ -10,10 +10,16 @@
      trash-empty    : only OverflowError (DAYS/clock outside datetime's range) can; a refused removal is reported
    Names that are not entries at all ('.trashinfo', '..trashinfo', '...trashinfo', non-.trashinfo files):
    Scan.is_trashinfo_name (fixes 61b0e27, cc2384b).
-   That the OUTPUT and EFFECTS on the well-formed entries equal those of a run without the malformed ones is
-   decided by the check's differential oracle on the real commands.  Proofs in Proofs/ReadersTotal.v. *)
+   AS IF ABSENT (Proofs/AsIfAbsent.v): a run of the loop over the info files of one trash directory is the concatenation of runs of
+   the per-entry handler; removing from the directory ANY set of entries that cannot be read or carry no Path (no valid date, for
+   trash-empty DAYS) leaves a genuine run over the remaining entries - the same answers for them - with the same standard output
+   (trash-list) / the same mutating operations (trash-rm, trash-empty DAYS).  That the real commands behave like that on a real
+   file system (two separate runs, with and without the neighbours) is what the check's differential oracle decides.
+   Proofs in Proofs/ReadersTotal.v, Proofs/AsIfAbsent.v. *)
 From TV Require Import Prelude.Str Prog.Prog Cmd.Put Cmd.Scan Cmd.Empty Cmd.Rm Cmd.ListCmd Cmd.Restore
-  Proofs.ProgProofs Proofs.ReadersTotal.
+  Proofs.ProgProofs Proofs.ReadersTotal Proofs.Independence Proofs.AsIfAbsent.
+From Coq Require Import List.
+Import ListNotations.
 Open Scope N_scope.
 
 Definition ends_normally_or {A} (E : exn -> Prop) (m : prog A) : Prop :=
@@ -38,6 +44,60 @@ Theorem empty_handles_any_entry : forall o p,
   ends_normally_or (fun e => e = OverflowErrorE) (empty_one_info o p).
 Proof. intros. apply ends_sound. apply empty_entry_total_lemma. Qed.
 Print Assumptions empty_handles_any_entry.
+
+(* ---- as if the malformed entries were absent ---- *)
+(* [ts] are the per-entry pieces of the run; [mask] says which entries stay (true) and may drop (false) only entries whose piece is
+   pathless / undated: it begins with a failed read of the info file, or with a text that has no Path (no valid DeletionDate) *)
+Theorem list_as_if_malformed_absent : forall o volume infos t, lo_size o = false ->
+  run_of (for_each infos (print_trashinfo o volume)) t (Done tt) ->
+  exists ts, t = concat ts /\ Forall2 (fun p ti => run_of (print_trashinfo o volume p) ti (Done tt)) infos ts /\
+    forall mask, Forall2 (fun b ti => b = false -> pathless ti) mask ts ->
+      run_of (for_each (keep mask infos) (print_trashinfo o volume)) (concat (keep mask ts)) (Done tt) /\
+      filter stdout_ev (concat (keep mask ts)) = filter stdout_ev t.
+Proof. exact list_as_if_malformed_absent_lemma. Qed.
+Print Assumptions list_as_if_malformed_absent.
+
+Theorem rm_as_if_malformed_absent : forall pattern volume infos t,
+  run_of (for_each infos (rm_one_info pattern volume)) t (Done tt) ->
+  exists ts, t = concat ts /\ Forall2 (fun p ti => run_of (rm_one_info pattern volume p) ti (Done tt)) infos ts /\
+    forall mask, Forall2 (fun b ti => b = false -> pathless ti) mask ts ->
+      run_of (for_each (keep mask infos) (rm_one_info pattern volume)) (concat (keep mask ts)) (Done tt) /\
+      filter mut_ev (concat (keep mask ts)) = filter mut_ev t.
+Proof. exact rm_as_if_malformed_absent_lemma. Qed.
+Print Assumptions rm_as_if_malformed_absent.
+
+Theorem empty_days_as_if_undated_absent : forall o dd infos t, eo_days o = Some dd ->
+  run_of (for_each infos (empty_one_info o)) t (Done tt) ->
+  exists ts, t = concat ts /\ Forall2 (fun p ti => run_of (empty_one_info o p) ti (Done tt)) infos ts /\
+    forall mask, Forall2 (fun b ti => b = false -> undated ti) mask ts ->
+      run_of (for_each (keep mask infos) (empty_one_info o)) (concat (keep mask ts)) (Done tt) /\
+      filter mut_ev (concat (keep mask ts)) = filter mut_ev t.
+Proof. exact empty_days_as_if_undated_absent_lemma. Qed.
+Print Assumptions empty_days_as_if_undated_absent.
+
+(* trash-restore: the entries found in one trash directory - and with them what is offered, and under which numbers - are the same
+   without the info files that are no .trashinfo files, cannot be read, or give no location *)
+Theorem restore_found_as_if_malformed_absent : forall scope volume infos acc t found,
+  run_of (fold_prog infos (restore_step scope volume) acc) t (Done found) ->
+  exists tbs, t = concat (map fst tbs) /\
+    Forall2 (fun it (tb : trace * option trashed_file) => run_of (read_trashed_file volume (fst it) (snd it)) (fst tb) (Done (snd tb))) infos tbs /\
+    forall mask, Forall2 (fun b (tb : trace * option trashed_file) => b = false -> unlocated volume (fst tb)) mask tbs ->
+      run_of (fold_prog (keep mask infos) (restore_step scope volume) acc) (concat (map fst (keep mask tbs))) (Done found).
+Proof. exact restore_found_as_if_malformed_absent_lemma. Qed.
+Print Assumptions restore_found_as_if_malformed_absent.
+
+Example restore_scan_dir_is_that_fold : forall scope acc dv,
+  restore_scan_dir scope acc dv = (infos <- all_info_files (fst dv) ;; fold_prog infos (restore_step scope (snd dv)) acc).
+Proof. reflexivity. Qed.
+
+(* non-vacuity: a directory with a binary neighbour between two good entries; dropping the neighbour keeps both lines *)
+Example a_malformed_neighbour_drops_out :
+  let good c := [(ReadText c, RStr ($"[Trash Info]" ++ [10] ++ $"Path=/x" ++ [10])); (Out false ($"????-??-?? ??:??:?? /x" ++ [10]), RUnit)] in
+  let bad := [(ReadText ($"/t/info/b.trashinfo"), RErr UnicodeDecodeError); (Log WARNING false ($"/t/info/b.trashinfo: "), RUnit)] in
+  pathless bad /\ ~ pathless (good ($"/t/info/a.trashinfo")) /\
+  filter stdout_ev (concat (keep [true; false; true] [good ($"/t/info/a.trashinfo"); bad; good ($"/t/info/c.trashinfo")]))
+  = filter stdout_ev (concat [good ($"/t/info/a.trashinfo"); bad; good ($"/t/info/c.trashinfo")]).
+Proof. cbv zeta. split; [exact I|]. split; [|vm_compute; reflexivity]. cbn [pathless]. vm_compute. discriminate. Qed.
 
 (* the date key: None (undated) is smaller than every date, two undated entries are equal - no TypeError *)
 Theorem undated_sorts_first : forall a b,
